@@ -19,6 +19,13 @@ EPS_US = 500000
 
 
 # ------------------------------------------------------------ generation
+def gen_epoch(rng, scn, p=0.3):
+    """Where on the time axis the run takes place: the harness' default is a small number (1e6 s); a real clock reads about
+    1.8e9 s today, where a float resolves a quarter of a microsecond -- deadline arithmetic must not care."""
+    if rng.random() < p:
+        scn['t0_us'] = rng.choice([1791000000, 1791000000, 4102444800, 86400]) * 1000000 + rng.randrange(1000000)
+
+
 def gen_costs(rng):
     n = rng.randint(1, 7)
     return [rng.choice([1, 2, 3, 5, 8, 13, 20]) for _ in range(n)]
@@ -364,6 +371,8 @@ def generate(rng, profile='engine'):
                     pp['p'] = recase_pattern(rng, pp['p'], fold)
         if api == 'expect' and len(op['pats']) == 1 and rng.random() < 0.5:
             op['single'] = True
+        if rng.random() < 0.15:
+            op['pos'] = True
         force_raw = op.pop('force_raw', False)
         if api == 'expect' and not force_raw and rng.random() < 0.06:
             # a pattern compiled from the other string type, with flags of its own
@@ -433,6 +442,7 @@ def generate(rng, profile='engine'):
             scn['sched'] = [rng.randint(0, 3) for _ in range(rng.randint(1, 12))]
     gen_eintr(rng, scn)
     gen_intr(rng, scn)
+    gen_epoch(rng, scn)
     return scn
 
 
